@@ -82,6 +82,16 @@ class Facts:
             out.append(b)
         return out
 
+    def impl_method(self, trait, adt, name):
+        key = (trait, adt, name)
+        if not hasattr(self, "_impl_idx"):
+            self._impl_idx = {}
+            for bid, b in self.bodies.items():
+                if "::promoted[" in bid or not b.get("impl_trait") or not b.get("impl_self_adt"):
+                    continue
+                self._impl_idx.setdefault((b["impl_trait"], b["impl_self_adt"], b["name"]), []).append(b)
+        return self._impl_idx.get(key, [])
+
     def one(self, **kw):
         r = self.find(**kw)
         if len(r) != 1:
